@@ -215,6 +215,7 @@ def hist_ops(kind, dims):
     another element type, removed; an agent sent (move_to) to coordinates next to the grid - accepted on single-layer
     axes, which the spatial range check does not constrain - or moved about inside."""
     ops = [['level', how] for how in ('int', 'int10', 'float', 'str', 'gen')] + [['rain'], ['drop', 'level'], ['drop', 'rain']]
+    ops.append(['rebind'])          # the table replaced by a copy of itself (env.cells = env.cells.copy(), to defragment it)
     d3 = list(dims) + [0] * (3 - len(dims))
     narg = NARG.get(kind, 3)
     for ax in range(narg):
@@ -270,6 +271,8 @@ def history_case(case):
                 continue
             world.remove_cell_component(op[1])
             del cols[op[1]]
+        elif op[0] == 'rebind':
+            world.cells = world.cells.copy()
         elif op[0] == 'walk':
             if walker is None:
                 walker = Core.Agent('walker', model)
